@@ -9,6 +9,7 @@ for s in $ids; do
   for q in $props; do
     out=$(/verif/tools/try_seed.sh $q /verif/seeded/$s 2>&1)
     if echo "$out" | grep -q "patch does not apply"; then res="PATCH-DOES-NOT-APPLY"
+    elif echo "$out" | grep -q "harness does not build"; then res="PATCH-DOES-NOT-BUILD(re-port the seed)"
     elif echo "$out" | grep -q "VIOLATION.*no-failing-input-found"; then res="DETECTED(no-failing-input-found)"
     elif echo "$out" | grep -q "VIOLATION"; then res="DETECTED(with replay)"
     else res="NOT-DETECTED"; fi
